@@ -453,7 +453,30 @@ def seq_par(n: size, m: size, x: f32[n, m]):
             x[i, j] = x[i, j] + 1.0
 
 
+# ---- triangular nests: inner bounds that mention the outer iterator (lower bound only, upper bound only, both)
+@proc
+def tri_lo(n: size, A: f32[n, n]):
+    for i in seq(0, n):
+        for j in seq(i, n):
+            A[i, j] = A[i, j] * 2.0
+
+
+@proc
+def tri_hi(n: size, A: f32[n, n]):
+    for i in seq(0, n):
+        for j in seq(0, i + 1):
+            A[i, j] = A[i, j] + 1.0
+
+
+@proc
+def tri_both(n: size, A: f32[n + 2, n + 2]):
+    for i in seq(0, n):
+        for j in seq(i, i + 2):
+            A[i, j] = 3.0
+
+
 PROCS = [
+    tri_lo, tri_hi, tri_both,
     axpy, scale2d, gemv, matmul, lowbound, two_loops_same, two_loops_dep, two_loops_difflo,
     consec_loops, zero_trip, idem_loop, nonidem_loop, stmts_indep, loop_carried, guard_inside,
     if_chain, divmod_idx, neg_intermediate, mod_wrap, neg_mod, neg_div, neg_mod_arg, stage_tmp, tmp_vec, tmp2d, two_bufs,
